@@ -8,7 +8,7 @@
       read_geometry 99-192 triangle branch (`readGeometry`), write_geometry 195-241 (`writeGeometry`),
       read_morph_data 244-271 new-format branch (`readMorph`), write_morph_data 274-315 (`writeMorph`),
       read_annot 318-390 + _read_annot_ctab_new_format 438-488 (`readAnnot`), write_annot 491-566
-      (`writeAnnot`; the logic before the fix `np.max(labels, initial=-1)` is `writeAnnotOrig`),
+      (`writeAnnot`; pre-fix variants `writeAnnotOrig`, `writeAnnotLookupOrig`, `writeAnnotUnsignedOrig`),
       _serialize_volume_info 594-619 (`serializeVolInfo`).
   * nibabel/freesurfer/mghformat.py
       MGHHeader.from_fileobj 156-175 + __init__ 104-127 (`readMgh`), _ndims 234-244 (`ndims`),
@@ -393,6 +393,22 @@ def clutLabels (avals : List Int) : List Int → Except Err (List Int)
       | .error e => .error e
     | .error e => .error e
 
+/-- the lookup of the working tree (fix cb244bc8): `labeled = labels != -1; clut_labels = np.zeros(vnum, int64);
+    clut_labels[labeled] = ctab[:, -1][labels[labeled]]` — unlabeled vertices never index the table.  (`clutLabel` /
+    `clutLabels` above are the lookup BEFORE that fix: `ctab[:, -1][labels]`, then the -1 positions zeroed.) -/
+def clutLabelFixed (avals : List Int) (l : Int) : Except Err Int :=
+  if l = -1 then .ok 0 else indexPy avals l
+
+def clutLabelsFixed (avals : List Int) : List Int → Except Err (List Int)
+  | [] => .ok []
+  | l :: ls =>
+    match clutLabelFixed avals l with
+    | .ok c =>
+      match clutLabelsFixed avals ls with
+      | .ok cs => .ok (c :: cs)
+      | .error e => .error e
+    | .error e => .error e
+
 /-- `np.vstack((range(vnum), clut_labels)).T.astype('>i4')` written row by row, starting at vertex `i` -/
 def encVtx (i : Nat) : List Int → Bytes
   | [] => []
@@ -420,12 +436,12 @@ def labelsMaxOrig : List Int → Except Err Int
   | [] => .error .value
   | l :: ls => .ok (ls.foldl max l)
 
-def writeAnnotWith (mx : Except Err Int) (labels : List Int) (ctab : List Row) (has5 : Bool)
-    (names : List Bytes) (fill : Bool) : Except Err Bytes :=
+def writeAnnotWith (lookup : List Int → List Int → Except Err (List Int)) (mx : Except Err Int) (labels : List Int)
+    (ctab : List Row) (has5 : Bool) (names : List Bytes) (fill : Bool) : Except Err Bytes :=
   match fillCtab fill has5 ctab with
   | .error e => .error e
   | .ok ctab' =>
-    match clutLabels (ctab'.map (·.a)) labels with
+    match lookup (ctab'.map (·.a)) labels with
     | .error e => .error e
     | .ok cl =>
       match mx with
@@ -437,37 +453,30 @@ def writeAnnotWith (mx : Except Err Int) (labels : List Int) (ctab : List Row) (
           .ok (encI32 labels.length ++ (encVtx 0 cl ++ (encI32 1 ++ (encI32 (-2) ++
             (encI32 (max (m + 1) ctab'.length) ++ (writeString noFile ++ (encI32 ctab'.length ++ ents)))))))
 
-/-- `write_annot` (io.py:491-566), repaired tree -/
+/-- `write_annot` (io.py:491-566), working tree (after the fixes 1b8b93eb, f0d22687, cb244bc8): labelled-only
+    lookup; `max_label = int(np.max(labels)) if vnum else -1` (`max(max_label + 1, n_rows)` equals
+    `max(labelsMax + 1, n_rows)` because `n_rows ≥ 0`); any integer label dtype -/
 def writeAnnot (labels : List Int) (ctab : List Row) (has5 : Bool) (names : List Bytes) (fill : Bool) :
     Except Err Bytes :=
-  writeAnnotWith (.ok (labelsMax labels)) labels ctab has5 names fill
+  writeAnnotWith clutLabelsFixed (.ok (labelsMax labels)) labels ctab has5 names fill
 
-/-- `write_annot` before the fix (`np.max(labels)` without `initial`) -/
+/-- `write_annot` before the fix 1b8b93eb (`np.max(labels)` without `initial`; old lookup) -/
 def writeAnnotOrig (labels : List Int) (ctab : List Row) (has5 : Bool) (names : List Bytes) (fill : Bool) :
     Except Err Bytes :=
-  writeAnnotWith (labelsMaxOrig labels) labels ctab has5 names fill
+  writeAnnotWith clutLabels (labelsMaxOrig labels) labels ctab has5 names fill
 
-/-- `write_annot` when `labels` has an UNSIGNED integer dtype: `np.max(labels, initial=-1)` (the repair of the
-    zero-vertex case) raises OverflowError under NumPy 2 (the Python int -1 is out of bounds for the dtype), after
-    the label lookup succeeded (open finding `annot:unsigned-labels-overflow`) -/
-def writeAnnotUnsigned (labels : List Int) (ctab : List Row) (has5 : Bool) (names : List Bytes) (fill : Bool) :
+/-- `write_annot` before the fix cb244bc8: `clut_labels = ctab[:, -1][labels]` indexes the table with the -1
+    labels too (IndexError on an empty table) -/
+def writeAnnotLookupOrig (labels : List Int) (ctab : List Row) (has5 : Bool) (names : List Bytes) (fill : Bool) :
     Except Err Bytes :=
-  writeAnnotWith (.error .overflow) labels ctab has5 names fill
+  writeAnnotWith clutLabels (.ok (labelsMax labels)) labels ctab has5 names fill
 
-/-- PROPOSED repair of `write_annot` (not in the tree): unlabeled vertices never index the table
-    (`clut_labels = np.zeros(vnum, ...); m = labels != -1; clut_labels[m] = ctab[:, -1][labels[m]]`) -/
-def clutLabelFixed (avals : List Int) (l : Int) : Except Err Int :=
-  if l = -1 then .ok 0 else indexPy avals l
-
-def clutLabelsFixed (avals : List Int) : List Int → Except Err (List Int)
-  | [] => .ok []
-  | l :: ls =>
-    match clutLabelFixed avals l with
-    | .ok c =>
-      match clutLabelsFixed avals ls with
-      | .ok cs => .ok (c :: cs)
-      | .error e => .error e
-    | .error e => .error e
+/-- `write_annot` between 1b8b93eb and f0d22687 when `labels` has an UNSIGNED integer dtype:
+    `np.max(labels, initial=-1)` raised OverflowError under NumPy 2 (the Python int -1 is out of bounds for the
+    dtype), after the label lookup succeeded -/
+def writeAnnotUnsignedOrig (labels : List Int) (ctab : List Row) (has5 : Bool) (names : List Bytes) (fill : Bool) :
+    Except Err Bytes :=
+  writeAnnotWith clutLabels (.error .overflow) labels ctab has5 names fill
 
 /-- `np.fromfile(fobj, dt, vnum * 2).reshape(vnum, 2)[:, 1]` -/
 def rdVtx : Nat → Bytes → Except Err (List Int × Bytes)
